@@ -28,7 +28,7 @@ import numpy as np
 from hypothesis import strategies as st
 
 from vf import gen as G
-from vf.core import Clause, Inconclusive, LibError, Violation, sut
+from vf.core import Clause, Inconclusive, Violation, sut
 
 PROPERTY_ID = "C16"
 RULE = ("Hypothesis-generated planner runs: {random seed, start, goal, bounds (position half-width 1..10, rotation bounds "
